@@ -103,6 +103,23 @@ func nativeRun(P *Program, pkg string, cases []NativeCase) ([]NativeResult, stri
 	return nativeRunOpt(P, pkg, cases, false)
 }
 
+// nativeRace replays one case under the race detector: Kind "race" when the
+// runtime reports a data race during it.
+func nativeRace(P *Program, pkg string, c NativeCase) (NativeResult, string, error) {
+	raceMode = true
+	defer func() { raceMode = false }()
+	res, out, err := nativeRunOpt(P, pkg, []NativeCase{c}, true)
+	if err != nil {
+		return NativeResult{}, out, err
+	}
+	if strings.Contains(out, "WARNING: DATA RACE") {
+		res[0].Kind, res[0].Detail = "race", "go test -race: WARNING: DATA RACE"
+	}
+	return res[0], out, nil
+}
+
+var raceMode bool
+
 func nativeRunOpt(P *Program, pkg string, cases []NativeCase, noRetry bool) ([]NativeResult, string, error) {
 	res := make([]NativeResult, len(cases))
 	if len(cases) == 0 {
@@ -164,7 +181,11 @@ func nativeRunOpt(P *Program, pkg string, cases []NativeCase, noRetry bool) ([]N
 	if pkgDirs[pkg] == "" {
 		rel = "."
 	}
-	cmd := exec.Command("go", "test", "-tags", "verif", "-overlay", ovPath, "-run", "^TestVerifReplay$", "-count=1", "-vet=off", "-timeout", "600s", "-v", rel)
+	args := []string{"test", "-tags", "verif", "-overlay", ovPath, "-run", "^TestVerifReplay$", "-count=1", "-vet=off", "-timeout", "600s", "-v"}
+	if raceMode {
+		args = append(args, "-race")
+	}
+	cmd := exec.Command("go", append(args, rel)...)
 	cmd.Dir = P.repo
 	cmd.Env = append(os.Environ(), "GOFLAGS=-mod=mod", "GOPROXY=off", "GOSUMDB=off", "GOTOOLCHAIN=local", "VERIF_CASES="+casesPath)
 	out, runErr := cmd.CombinedOutput()
@@ -289,6 +310,8 @@ func reproduced(v Violation, r NativeResult) bool {
 		return r.Kind == "panic" || r.Kind == "timeout" || r.Kind == "missing"
 	case "deadlock":
 		return r.Kind == "timeout"
+	case "race":
+		return r.Kind == "race"
 	case "sharedwrite", "foreignwrite":
 		// a property of the path itself: confirmed when the path is natively feasible
 		return r.Kind == "ok"
@@ -424,6 +447,12 @@ func runProperty(prop, tier, repo, verif string, opts RunOpts, workers int, noRe
 				v := pending[i].v
 				nr := nres[k]
 				validated++
+				if v.Kind == "race" {
+					// confirmed by the runtime's race detector on the same inputs
+					if rr, _, err := nativeRace(P, pkg, NativeCase{v.Harness, v.Inputs}); err == nil {
+						nr = rr
+					}
+				}
 				if !reproduced(v, nr) {
 					unconfirmed = append(unconfirmed, fmt.Sprintf("%s %s %s %q: native run gave %s %s", v.Harness, v.Kind, v.Site, v.Msg, nr.Kind, nr.Detail))
 					continue
@@ -610,6 +639,11 @@ func replayFile(path, repo, verif string) int {
 		return 2
 	}
 	res, out, err := nativeRun(P, rf.Pkg, []NativeCase{{rf.Harness, rf.Inputs}})
+	if err == nil && rf.Kind == "race" {
+		var rr NativeResult
+		rr, out, err = nativeRace(P, rf.Pkg, NativeCase{rf.Harness, rf.Inputs})
+		res = []NativeResult{rr}
+	}
 	if err != nil {
 		fmt.Fprintln(os.Stderr, err)
 		return 2
